@@ -575,6 +575,16 @@ const rcpVocabulary = `age: error: failed to parse recipient file malformed reci
 	`no recipients found failed to read recipients file: bufio.Scanner: token too long`
 
 // leakWindow returns a w-byte window of s that occurs in text (and not in allow), or "".
+// lineNumberWords: the "at line N" phrases a message may legitimately contain (a 4-byte window such as
+// "ne 2" of a key line is otherwise taken for a leak of that line)
+func lineNumberWords(n int) string {
+	var sb strings.Builder
+	for i := 1; i <= n; i++ {
+		fmt.Fprintf(&sb, " at line %d ", i)
+	}
+	return sb.String()
+}
+
 func leakWindow(s string, w int, text, allow string) string {
 	for i := 0; i+w <= len(s); i++ {
 		win := s[i : i+w]
@@ -676,7 +686,7 @@ func libCase(kind string, fl int, file []byte, lines []c18Line, note string) *h.
 		// what the message gives away
 		if fl == flRcp {
 			for _, l := range own {
-				if w := leakWindow(l, 4, msg, rcpVocabulary); w != "" {
+				if w := leakWindow(l, 4, msg, rcpVocabulary+lineNumberWords(len(own)+1)); w != "" {
 					orc = append(orc, fmt.Sprintf("recipients-file error %q reproduces %q from a line of the file", msg, w))
 					break
 				}
@@ -824,7 +834,7 @@ func (e *c18CLI) rcpCase(kind string, file []byte, lines []c18Line, note string)
 		}
 	}
 	// the text: nothing of any line except the key-type word of a warning
-	allow := rcpVocabulary + " " + fpath + " " + strings.Join(types, " ")
+	allow := rcpVocabulary + " " + fpath + " " + strings.Join(types, " ") + lineNumberWords(len(own)+1)
 	for _, l := range own {
 		if w := leakWindow(l, 4, stderr, allow); w != "" {
 			orc = append(orc, fmt.Sprintf("stderr %q reproduces %q from a line of the recipients file", strings.TrimSpace(stderr), w))
